@@ -585,6 +585,149 @@ Proof.
     now rewrite (conv_fields_err (fun t f x => convert_to c t f x) fs fs0 tfs n t ft fw Hin Hf IHfs).
 Qed.
 
+(* ---------- leaves: the scalars of the result are the scalars of the source ---------- *)
+
+Lemma flat_map_perm_pointwise {A} (f : A -> list val) l l' :
+  Forall2 (fun a b => Permutation (f a) (f b)) l l' -> Permutation (flat_map f l) (flat_map f l').
+Proof. induction 1; cbn [flat_map]; [constructor | now apply Permutation_app]. Qed.
+
+Lemma flat_map_perm {A} (f : A -> list val) l l' : Permutation l l' -> Permutation (flat_map f l) (flat_map f l').
+Proof.
+  induction 1; cbn [flat_map]; try reflexivity.
+  - now apply Permutation_app_head.
+  - rewrite !app_assoc. apply Permutation_app_tail. apply Permutation_app_comm.
+  - etransitivity; eassumption.
+Qed.
+
+Lemma in_combine_lnames (fs : list (string * gotype)) (vs : list val) n t y :
+  In ((n, t), y) (combine fs vs) -> In (lower n, y) (combine (lnames fs) vs).
+Proof.
+  revert vs. induction fs as [|[n0 t0] fs IH]; intros [|v vs]; cbn [combine lnames map fst In]; try tauto.
+  intros [E|Hin]; [inversion E; subst; now left | right; now apply IH].
+Qed.
+
+Lemma NoDup_combine_l {A B} (l : list A) (l' : list B) : NoDup l -> NoDup (combine l l').
+Proof.
+  revert l'. induction l as [|a l IH]; intros [|b l'] H; cbn [combine]; try constructor.
+  - inversion H; subst. intro Hin. apply in_combine_l in Hin. contradiction.
+  - inversion H; subst. now apply IH.
+Qed.
+
+Lemma map_snd_combine {A B} (l : list A) (l' : list B) : List.length l = List.length l' -> map snd (combine l l') = l'.
+Proof.
+  revert l'. induction l as [|a l IH]; intros [|b l'] H; cbn [combine map snd]; try discriminate H; [reflexivity|].
+  f_equal. apply IH. now inversion H.
+Qed.
+
+Lemma lnames_length fs : List.length (lnames fs) = List.length fs.
+Proof. unfold lnames. apply map_length. Qed.
+
+Lemma found_perm fs1 fs2 vs2 ys :
+  NoDup (lnames fs1) -> List.length vs2 = List.length fs2 -> List.length fs1 = List.length fs2 ->
+  Forall2 (fun (nt1 : string * gotype) y => exists t', find_field (fst nt1) fs2 vs2 = Some (t', y)) fs1 ys ->
+  Permutation ys vs2.
+Proof.
+  intros ND1 Hl2 Hl12 HF.
+  pose proof (Forall2_len _ _ _ HF) as Hl1.
+  assert (Hperm : Permutation (combine (lnames fs1) ys) (combine (lnames fs2) vs2)).
+  { apply NoDup_Permutation_bis.
+    - now apply NoDup_combine_l.
+    - rewrite !combine_length, !lnames_length. lia.
+    - intros [ln y] Hin.
+      assert (Hex : exists n1 t1, In ((n1, t1), y) (combine fs1 ys) /\ ln = lower n1).
+      { clear -Hin. revert ys Hin. induction fs1 as [|[n0 t0] fs1 IH]; intros [|y0 ys]; cbn [combine lnames map fst In]; try tauto.
+        intros [E|Hin]; [inversion E; subst; exists n0, t0; auto|].
+        destruct (IH ys Hin) as [n1 [t1 [H1 H2]]]. exists n1, t1. auto. }
+      destruct Hex as [n1 [t1 [Hin1 ->]]].
+      destruct (Forall2_In_combine _ _ _ _ _ HF Hin1) as [t' Hf]. cbn [fst] in Hf.
+      destruct (find_field_In _ _ _ _ _ Hf) as [n2 [Hin2 Hn]].
+      apply name_eqb_iff in Hn. rewrite Hn. exact (in_combine_lnames _ _ _ _ _ Hin2). }
+  apply (Permutation_map snd) in Hperm.
+  rewrite !map_snd_combine in Hperm by (rewrite lnames_length; lia). exact Hperm.
+Qed.
+
+Lemma find_field_type n fs vs t x : find_field n fs vs = Some (t, x) -> field_type n fs = Some t.
+Proof.
+  revert vs. induction fs as [|[n0 t0] fs IH]; intros [|v vs]; cbn [find_field field_type]; try discriminate.
+  destruct (name_eqb n n0); [intro H; now inversion H | apply IH].
+Qed.
+
+Lemma compat_struct_facts fs1 fs2 :
+  compat (TStruct fs1) (TStruct fs2) ->
+  NoDup (lnames fs1) /\ NoDup (lnames fs2) /\ List.length fs1 = List.length fs2 /\
+  (forall n t, In (n, t) fs1 -> exists t', field_type n fs2 = Some t' /\ compat t t').
+Proof.
+  intro Hc. unfold compat in Hc. cbn [compatb] in Hc.
+  apply andb_true_iff in Hc. destruct Hc as [Hc F21].
+  apply andb_true_iff in Hc. destruct Hc as [Hc F12].
+  apply andb_true_iff in Hc. destruct Hc as [ND1 ND2].
+  apply string_nodupb in ND1. apply string_nodupb in ND2.
+  rewrite forallb_forall in F12, F21.
+  assert (H12 : forall n t, In (n, t) fs1 -> exists t', field_type n fs2 = Some t' /\ compat t t').
+  { intros n t Hin. specialize (F12 _ Hin). cbn beta iota in F12.
+    destruct (field_type n fs2) as [t'|]; [eauto | discriminate]. }
+  repeat split; try assumption.
+  assert (I12 : incl (lnames fs1) (lnames fs2)).
+  { intros ln Hin. unfold lnames in Hin. apply in_map_iff in Hin. destruct Hin as [[n t] [<- Hin]].
+    destruct (H12 n t Hin) as [t' [Hf _]]. destruct (field_type_In _ _ _ Hf) as [n' [Hin' Hn]].
+    apply name_eqb_iff in Hn. cbn [fst]. rewrite Hn. unfold lnames. apply in_map_iff. exists (n', t'). auto. }
+  assert (I21 : incl (lnames fs2) (lnames fs1)).
+  { intros ln Hin. unfold lnames in Hin. apply in_map_iff in Hin. destruct Hin as [[n t] [<- Hin]].
+    specialize (F21 _ Hin). cbn [fst] in *. apply existsb_exists in F21. destruct F21 as [n1 [Hin1 Hn]].
+    apply name_eqb_iff in Hn. rewrite Hn. apply in_map_iff in Hin1. destruct Hin1 as [[n1' t1] [E Hin1]].
+    cbn [fst] in E. subst n1'. unfold lnames. apply in_map_iff. exists (n1, t1). auto. }
+  pose proof (NoDup_incl_length ND1 I12) as L1. pose proof (NoDup_incl_length ND2 I21) as L2.
+  rewrite !lnames_length in L1, L2. lia.
+Qed.
+
+Lemma fields_agree_Forall2 fs2 vs2 fs1 vs1 :
+  fields_agree fs2 vs2 fs1 vs1 ->
+  Forall2 (fun (nt1 : string * gotype) x1 =>
+             exists t' x', find_field (fst nt1) fs2 vs2 = Some (t', x') /\ agree (snd nt1) t' x1 x') fs1 vs1.
+Proof.
+  revert vs1. induction fs1 as [|[n t] fs1 IH]; intros [|x vs1]; cbn [fields_agree]; try tauto; [constructor|].
+  intros [H Hr]. constructor; [exact H | now apply IH].
+Qed.
+
+Theorem agree_leaves : forall t1 t2 v v', compat t1 t2 -> agree t1 t2 v v' -> Permutation (leaves v) (leaves v').
+Proof.
+  induction t1 as [| |k1| | |e1 IHe|k1 e1 IHk IHe|fs1 IHfs] using gotype_ind2; intros t2 v v' Hc Ha;
+    destruct t2 as [| |k2| | |e2|k2 e2|gs2]; try discriminate Hc;
+    destruct v as [b|s|z|b|l|m|vs1]; try contradiction Ha;
+    destruct v' as [b'|s'|z'|b'|l'|m'|vs2]; try contradiction Ha;
+    cbn [agree] in Ha; try (subst; reflexivity).
+  - cbn [leaves]. unfold compat in Hc. cbn [compatb] in Hc. apply flat_map_perm_pointwise.
+    induction Ha as [|x y l1 l2 Hxy _ IH]; constructor; [eapply IHe; [exact Hc | exact Hxy] | exact IH].
+  - cbn [leaves]. unfold compat in Hc. cbn [compatb] in Hc. apply andb_true_iff in Hc. destruct Hc as [Hck Hce].
+    apply flat_map_perm_pointwise.
+    induction Ha as [|kv kv' m m' [Hk He] _ IH]; constructor; [|exact IH].
+    apply Permutation_app; [now apply (IHk k2) | now apply (IHe e2)].
+  - cbn [leaves]. destruct Ha as [Hlen HA].
+    destruct (compat_struct_facts _ _ Hc) as [ND1 [ND2 [Hl12 H12]]].
+    apply fields_agree_Forall2 in HA. rewrite Forall_forall in IHfs.
+    assert (Hex : exists ys, Forall2 (fun x1 y => Permutation (leaves x1) (leaves y)) vs1 ys /\
+                             Forall2 (fun (nt1 : string * gotype) y => exists t', find_field (fst nt1) gs2 vs2 = Some (t', y)) fs1 ys).
+    { clear -HA IHfs H12. induction HA as [|[n t] x1 l l' [t' [x' [Hf Hag]]] _ IH].
+      - exists []. split; constructor.
+      - destruct IH as [ys [P1 P2]].
+        + intros nt Hin. apply IHfs. now right.
+        + intros n0 t0 Hin. apply H12. now right.
+        + exists (x' :: ys). cbn [fst snd] in *. split; constructor; eauto.
+          apply (IHfs (n, t) (or_introl eq_refl) t'); [|exact Hag].
+          destruct (H12 n t (or_introl eq_refl)) as [t'' [Hft Hct]].
+          rewrite (find_field_type _ _ _ _ _ Hf) in Hft. inversion Hft; subst. exact Hct. }
+    destruct Hex as [ys [P1 P2]].
+    etransitivity; [exact (flat_map_perm_pointwise leaves _ _ P1)|].
+    apply flat_map_perm. exact (found_perm fs1 gs2 vs2 ys ND1 Hlen Hl12 P2).
+Qed.
+
+Theorem convert_leaves : forall c, clean c -> forall t1 t2 v v', compat t1 t2 -> has_type t1 v ->
+  convert c t1 t2 v = COk v' -> Permutation (leaves v') (leaves v).
+Proof.
+  intros c Hc t1 t2 v v' H1 H2 H3. destruct (convert_compat c Hc t1 t2 v H1 H2) as [v'' [E [_ [A _]]]].
+  rewrite H3 in E. inversion E; subst v''. symmetry. exact (agree_leaves t1 t2 v v' H1 A).
+Qed.
+
 (* ---------- witnesses ---------- *)
 Local Open Scope string_scope.
 
